@@ -25,7 +25,7 @@ ASSUMPTIONS = [
     "tolerance = half a unit of the last printed digit of the token fmt % x, plus 4 ulp of slack",
 ]
 REQUIRED = ["write_read_pairs", "samples_compared", "wrapped_pairs_multi_line", "pairs_curve_count_multiple_of_capacity",
-            "engine_numpy_pairs", "engine_normal_pairs", "nan_samples_compared", "index_null_equal_samples", "cases_in_memory_dlm_not_space"]
+            "engine_numpy_pairs", "engine_normal_pairs", "nan_samples_compared", "index_null_equal_samples", "cases_in_memory_dlm_not_space", "rewrites_after_inplace_edit"]
 SOFT_DEADLINE = {"quick": 90, "thorough": 1500}
 LEVEL_TEXT = ("Exploration of the (shape x values x writer options x engine) product space with a per-sample oracle whose "
               "tolerance is derived from the token actually printed; line capacity is observed from the emitted text.")
@@ -244,6 +244,34 @@ def run_case(case, ctx):
             if not abs(y - x) <= tol:
                 ctx.violation("sample-outside-printed-precision:" + tag, "curve #%d row %d: %r written as %r, read back %r (tolerance %g)" % (
                     j, i, x, tok, y, tol), detail)
+    # ---- a second write after in-place edits of the samples must carry the edited samples --------------------------
+    if case.get("seed", 0) % 3 == 2 and n >= 2:
+        ctx.count("rewrites_after_inplace_edit")
+        edits = []
+        for j in range(1, n):
+            i = (case["seed"] + j) % r
+            newv = round(123.456 + j + i / 7.0, 3)
+            if float(fmt_for(opts, j) % newv) == float(null):
+                newv += 1.0
+            las.curves[j].data[i] = newv
+            edits.append((j, i, newv))
+        buf2 = io.StringIO()
+        try:
+            las.write(buf2, **kw)
+            las3 = lasio.read(buf2.getvalue(), engine=case["engine"])
+        except Exception as e:
+            ctx.violation("rewrite-after-edit-raised:%s" % type(e).__name__, "second write/read after in-place edits raised %r" % (e,), detail)
+        else:
+            for j, i, newv in edits:
+                if len(las3.curves) != n or len(las3.curves[j].data) != r:
+                    ctx.violation("rewrite-after-edit-shape", "shape changed on the second write", detail)
+                    break
+                y = float(las3.curves[j].data[i])
+                tok = fmt_for(opts, j) % newv
+                tol = 0.5 * unit_of_token(tok) * (1 + 1e-9) + 4 * abs(math.ulp(newv))
+                if not abs(y - newv) <= tol:
+                    ctx.violation("stale-samples-on-second-write", "curve #%d row %d was edited in place to %r after the first write; the second write/read gives %r" % (j, i, newv, y), detail)
+                    break
     sig = [n, "r1" if r == 1 else "r2-3" if r <= 3 else "r>3", sorted((k, str(v)) for k, v in opts.items()), case["values"],
            case.get("nan", 0), case["engine"]]
     ctx.case_done(sig, nontrivial=(n >= 2 or r >= 2) and finite_nonint >= 1)
